@@ -32,6 +32,7 @@ from typing import Callable, Generator, cast, Sequence
 
 from igraph import Edge, OUT, Vertex, Graph
 
+from explorerscript import _verif
 from explorerscript.ssb_converting.ssb_special_ops import (
     SsbLabelJump,
     SsbLabel,
@@ -62,6 +63,8 @@ find_first_common_next_vertex_in_edges_cache: dict[int, dict[str, list[Edge] | N
 def find_first_common_next_vertex_in_edges__clear_cache(g: Graph) -> None:
     with cache_lock:
         find_first_common_next_vertex_in_edges_cache[id(g)] = {}
+        if _verif.ENABLED:
+            _verif.emit("cache-clear", id(g))
 
 
 def find_first_common_next_vertex_in_edges(
@@ -101,7 +104,11 @@ def find_first_common_next_vertex_in_edges(
         if id(g) not in find_first_common_next_vertex_in_edges_cache:
             find_first_common_next_vertex_in_edges_cache[id(g)] = {}
         if es_ids in find_first_common_next_vertex_in_edges_cache[id(g)]:
+            if _verif.ENABLED:
+                _verif.emit("cache-hit", id(g), es_ids)
             return find_first_common_next_vertex_in_edges_cache[id(g)][es_ids]
+        if _verif.ENABLED:
+            _verif.emit("cache-miss", id(g), es_ids)
     assert len(es) > 1
     result = _find_first_common_next_vertex_in_edges__impl(
         g, [{e} for e in es], [], allow_open_branches, allow_loops, vs_to_not_visit, allow_loop_edges
@@ -109,6 +116,8 @@ def find_first_common_next_vertex_in_edges(
     with cache_lock:
         # cache may have been cleared in the meantime
         find_first_common_next_vertex_in_edges_cache[id(g)][es_ids] = result
+        if _verif.ENABLED:
+            _verif.emit("cache-store", id(g), es_ids, result is None)
     return result
 
 
